@@ -192,8 +192,48 @@ fn draw_name(d: &Draw, root: &str) -> String {
     s
 }
 
+/// Enumerated names for C03: every name made of a prefix, one to three segments of a path-segment
+/// alphabet and separators, as RRQ and as WRQ. Index space: see `confine_space`.
+const E_PREFIX: [&str; 8] = ["", "/", "\\", "//", "../", "..\\", "$OUTER/", "/$OUTER/served-evil/"];
+const E_SEG: [&str; 12] = ["..", ".", "", "a", "sub", "x", "secret.txt", "served-evil", "pub.txt", "...", "..x", "recv"];
+const E_SEP: [&str; 4] = ["/", "\\", "//", "/./"];
+const E_SEG3: [&str; 6] = ["..", ".", "", "sub", "x", "served"];
+pub fn confine_space() -> u64 {
+    let one = (E_PREFIX.len() * E_SEG.len()) as u64;
+    let two = (E_PREFIX.len() * E_SEG.len() * E_SEP.len() * E_SEG.len()) as u64;
+    let three = (E_PREFIX.len() * E_SEG3.len() * 2 * E_SEG3.len() * 2 * E_SEG3.len()) as u64;
+    2 * (one + two + three)
+}
+fn enumerated_name(k: u64, root: &str) -> (String, bool) {
+    fn take(k: &mut u64, n: usize) -> usize {
+        let v = (*k % n as u64) as usize;
+        *k /= n as u64;
+        v
+    }
+    let mut k = k % confine_space();
+    let write = k % 2 == 1;
+    k /= 2;
+    let one = (E_PREFIX.len() * E_SEG.len()) as u64;
+    let two = (E_PREFIX.len() * E_SEG.len() * E_SEP.len() * E_SEG.len()) as u64;
+    let name = if k < one {
+        let (p, a) = (take(&mut k, E_PREFIX.len()), take(&mut k, E_SEG.len()));
+        format!("{}{}", E_PREFIX[p], E_SEG[a])
+    } else if k < one + two {
+        k -= one;
+        let (p, a, s1, b) = (take(&mut k, E_PREFIX.len()), take(&mut k, E_SEG.len()), take(&mut k, E_SEP.len()), take(&mut k, E_SEG.len()));
+        format!("{}{}{}{}", E_PREFIX[p], E_SEG[a], E_SEP[s1], E_SEG[b])
+    } else {
+        k -= one + two;
+        let (p, a, s1, b, s2, c) = (take(&mut k, E_PREFIX.len()), take(&mut k, E_SEG3.len()), take(&mut k, 2), take(&mut k, E_SEG3.len()), take(&mut k, 2), take(&mut k, E_SEG3.len()));
+        format!("{}{}{}{}{}{}", E_PREFIX[p], E_SEG3[a], E_SEP[s1], E_SEG3[b], E_SEP[s2], E_SEG3[c])
+    };
+    (name.replace("$OUTER", &format!("{root}/outer")), write)
+}
+
 pub fn confine(_tier: Tier, w: &Arc<World>) -> Scn {
     let d = Draw { w };
+    // every fourth run of each build takes its names from the enumeration (four names per run)
+    let stratum: Option<u64> = if matches!(d.enumerate("strat.slot", 4), 0 | 3) { Some(d.enumerate("strat.index", 1 << 30) as u64) } else { None };
     let sandbox = Sandbox::new();
     let root = sandbox.root.to_string_lossy().into_owned();
     w.lock().sb_root = root.clone();
@@ -244,12 +284,17 @@ pub fn confine(_tier: Tier, w: &Arc<World>) -> Scn {
     srv.recv_dir = srv.recv_dir.as_ref().map(|p| spell(p));
     srv.overwrite = d.chance("swarm.overwrite", 1, 2);
     let (send, recv) = if distinct { (served.clone(), recvd.clone()) } else { (served.clone(), served.clone()) };
-    let n = 2 + d.range("swarm.requests", 6) as usize;
+    let n = if stratum.is_some() { 4 } else { 2 + d.range("swarm.requests", 6) as usize };
     let mut reqs = vec![];
-    let mut desc = format!("confine {} distinct_dirs={distinct} layout={} dir_spelling={} names=[", srv.describe(), ["-d,-sd,-rd", "-d(recv),-sd", "-d(send),-rd"][layout as usize], ["absolute", "relative", "parent-steps"][spelling]);
+    let mut desc = format!("confine {}{} distinct_dirs={distinct} layout={} dir_spelling={} names=[", if stratum.is_some() { "STRATUM " } else { "" }, srv.describe(), ["-d,-sd,-rd", "-d(recv),-sd", "-d(send),-rd"][layout as usize], ["absolute", "relative", "parent-steps"][spelling]);
     for i in 0..n {
-        let write = d.chance("swarm.req.write", 1, 2);
-        let name = draw_name(&d, &root);
+        let (name, write) = match stratum {
+            Some(ix) => enumerated_name(ix * 4 + i as u64, &root),
+            None => {
+                let write = d.chance("swarm.req.write", 1, 2);
+                (draw_name(&d, &root), write)
+            }
+        };
         let data = Arc::new(content(400 + 10 * i, 60 + i as u64));
         let mut xc = XferCfg::new(srv.addr(), &name);
         xc.resend_request = false;
